@@ -83,6 +83,11 @@ func genConc(r *rand.Rand, cc ConcCfg, id int, prefix string) Program {
 					t.Ops = append(t.Ops, OpSpec{Op: "Update", Store: 0, K: k, V: tag + ".u"})
 				}
 			}
+			if r.Intn(3) == 0 { // also remove own existing keys (same residue class, not the one updated): several removes in one replay
+				for k := 1 + ti + cc.Txns; k <= cc.Keys; k += cc.Txns {
+					t.Ops = append(t.Ops, OpSpec{Op: "Remove", Store: 0, K: k})
+				}
+			}
 		case "uniqueadd":
 			n := 1 + r.Intn(3)
 			for i := 0; i < n; i++ {
